@@ -39,6 +39,7 @@ def check(m, run):
     ag2_and_layout(m, run)
     text_formats(m, run)
     file_helpers(m, run)
+    wrappers(m, run)
     run.floor('AG1.keys', 25, 'mandatory keys of the five dict pairs')
     run.floor('AG2.record-table', 14, 'header fields of smesh (7) and vmesh (10)')
     run.floor('WV1.weight-form', 4, 'two writers, two readers')
@@ -468,3 +469,61 @@ def file_helpers(m, run):
                'saves a [%s][%s] array with sizes %s' % (want[0], want[1], passed) if passed == want else
                'the array saved is [%s][%s]%s but _save_ctrlpts2d_file is told the sizes %s: rows and columns are exchanged (IndexError or truncated file for non-square nets)'
                % (want[0], want[1], ' (u and v flipped)' if flipped else '', passed), site(fi, c))
+
+
+def wrappers(m, run):
+    """public txt/csv wrappers: separator options have the same keys and defaults on both sides and reach the parameter of the
+    same role; the CSV reader skips exactly the header lines the writer emits"""
+    ex, im = m.func('exchange.export_txt'), m.func('exchange.import_txt')
+    opts = {}
+    for fi in (ex, im):
+        sc = ra.scope_of(fi)
+        d = {}
+        for n in walk_no_nested(fi.node):
+            if isinstance(n, ast.Assign) and isinstance(n.value, ast.Call) and isinstance(n.value.func, ast.Attribute) and n.value.func.attr == 'get' \
+                    and len(n.value.args) == 2 and isinstance(n.value.args[0], ast.Constant) and isinstance(n.value.args[1], ast.Constant):
+                d[n.value.args[0].value] = n.value.args[1].value
+        opts[fi.key] = d
+        # argument roles at the delegation call
+        calls = [c for c in walk_no_nested(fi.node) if isinstance(c, ast.Call) and norm(c.func).endswith(('export_text_data', 'import_text_data'))]
+        if len(calls) != 1:
+            raise AnalysisError('%s: delegation to *_text_data not found' % fi.key)
+        callee = m.resolve_callable(fi.mod, calls[0].func)
+        cps = params_of(callee.node)
+        want = {'separator': 'sep', 'col_separator': 'col_sep'}
+        for pos, a in enumerate(calls[0].args):
+            org = sc.api_origin(a) if isinstance(a, ast.Name) else None
+            if org in want:
+                ok = pos < len(cps) and cps[pos] == want[org]
+                run.ob('TXW.option-roles', '%s :: %s' % (fi.key, org), ok, 'option %r reaches parameter `%s`' % (org, cps[pos]) if ok else
+                       'option %r is passed as parameter `%s` of %s; it is the `%s`' % (org, cps[pos] if pos < len(cps) else '?', callee.key, want[org]), site(fi, calls[0]))
+            if isinstance(a, ast.Name) and a.id == 'two_dimensional':
+                ok = pos < len(cps) and cps[pos] == 'two_dimensional'
+                run.ob('TXW.option-roles', '%s :: two_dimensional' % fi.key, ok, 'flag reaches the same-named parameter', site(fi, calls[0]))
+    a, b = opts[ex.key], opts[im.key]
+    common = {k for k in a if k in b and 'separator' in k}
+    okd = len(common) == 2 and all(a[k] == b[k] for k in common) and a.get('separator') != a.get('col_separator')
+    run.ob('TXW.same-defaults', 'exchange.export_txt / import_txt', okd, 'separator defaults %s on both sides' % {k: a[k] for k in sorted(common)} if okd else
+           'separator defaults differ between writer %s and reader %s: a file written with defaults cannot be read with defaults' % (a, b), site(im))
+    # CSV: header lines written vs skipped, separator
+    ec, ic = m.func('exchange.export_csv'), m.func('exchange.import_csv')
+    skips = [k.value.value for c in walk_no_nested(ic.node) if isinstance(c, ast.Call) and norm(c.func).endswith('read_file') for k in c.keywords
+             if k.arg == 'skip_lines' and isinstance(k.value, ast.Constant)]
+    # header: statements that add "\n" to the output before the point loop
+    ploop = [n for n in ec.node.body if isinstance(n, ast.For) and any(isinstance(x, ast.Call) and isinstance(x.func, ast.Attribute) and x.func.attr == 'join' for x in ast.walk(n))]
+    hdr = 0
+    if ploop:
+        for n in ec.node.body:
+            if n is ploop[0]:
+                break
+            if isinstance(n, (ast.Assign, ast.AugAssign)) and not isinstance(n, ast.For):
+                hdr += norm(n.value).count('\\n')
+    okc = bool(skips) and bool(ploop) and skips[0] == hdr
+    run.ob('TXW.csv-header', 'exchange.export_csv / import_csv', okc, 'writer emits %d header line, reader skips %s' % (hdr, skips[0] if skips else '?') if okc else
+           'the CSV writer emits %d header line(s) but the reader skips %s: the first data point is lost or the header is parsed as a point' % (hdr, skips), site(ic))
+    joins = [c for c in ast.walk(ploop[0]) if isinstance(c, ast.Call) and isinstance(c.func, ast.Attribute) and c.func.attr == 'join'] if ploop else []
+    wsep = joins[0].func.value.value if joins and isinstance(joins[0].func.value, ast.Constant) else None
+    rsep = [n.value.args[1].value for n in walk_no_nested(ic.node) if isinstance(n, ast.Assign) and isinstance(n.value, ast.Call) and isinstance(n.value.func, ast.Attribute)
+            and n.value.func.attr == 'get' and len(n.value.args) == 2 and isinstance(n.value.args[1], ast.Constant)]
+    run.ob('TXW.same-defaults', 'exchange.export_csv / import_csv', wsep is not None and rsep and wsep == rsep[0], 'value separator %r on both sides' % wsep if rsep and wsep == rsep[0] else
+           'CSV writer separates values with %r, reader default is %r' % (wsep, rsep), site(ic))
